@@ -788,3 +788,21 @@ RECIPES['C08'] += [
     ('custom-vjp-correct-transpose', 'dinosaur/primitive_equations.py', _UPDIV_OLD,
      _UPDIV_VJP % "      above = jax_numpy_utils.reverse_cumsum(ct, axis=0, sharding=sharding) - ct\n      return (thickness[:, np.newaxis, np.newaxis] * above,)", 'equiv'),
 ]
+_TOPEIG = "  top_eigenvalue = eigenvalues[grid.total_wavenumbers - 1]"
+RECIPES['C07'] += [
+    ('top-mode-skips-zonal-padding', TI, _TOPEIG, "  top_eigenvalue = eigenvalues[-1 - grid.modal_padding[0]]", 'kill'),
+    ('top-mode-skips-total-padding-equiv', TI, _TOPEIG, "  top_eigenvalue = eigenvalues[-1 - grid.modal_padding[1]]", 'equiv'),
+]
+RECIPES['C15'] += [
+    ('top-mode-skips-total-padding-equiv', TI, _TOPEIG, "  top_eigenvalue = eigenvalues[-1 - grid.modal_padding[1]]", 'equiv'),
+    ('top-mode-skips-zonal-padding', TI, _TOPEIG, "  top_eigenvalue = eigenvalues[-1 - grid.modal_padding[0]]", 'kill'),
+]
+RECIPES['C09'] += [
+    ('filter-normalised-by-padded-extent', 'dinosaur/filtering.py', "  k = total_wavenumber / total_wavenumber.max()", "  k = total_wavenumber / (len(total_wavenumber) - 1)", 'kill'),
+]
+RECIPES['C12'] += [
+    ('diffusion-normalised-by-bare-wavenumber', TI, "  scale = dt / (tau * abs(top_eigenvalue) ** order)", "  top = grid.total_wavenumbers - 1\n  scale = dt / (tau * (top * (top + 1)) ** order)", 'kill'),
+]
+RECIPES['C04'] += [
+    ('omega-over-p-roll-wraps', 'dinosaur/primitive_equations.py', "    padding = [(1, 0), (0, 0), (0, 0)]\n    g_part = (alpha * f + jnp.pad(alpha * f, padding)[:-1, ...]) / del_𝜎", "    g_part = (alpha * f + jnp.roll(alpha * f, 1, axis=0)) / del_𝜎", 'kill'),
+]
